@@ -392,8 +392,15 @@ func c10Backward(u *vfUnit, part int) {
 			id++
 			p := pr.pkt
 			p.ID = id
+			calls0 := len(store.Calls())
 			resp, err := rs.R.Phase(60*time.Second, p)
 			where = ""
+			if pr.where != "object" {
+				// whatever the handler answers, the request is forwarded to exactly one handler entry point
+				if cs := store.Calls()[calls0:]; len(cs) != 1 {
+					u.Violation(fmt.Sprintf("backward-call-count-%d:%s", len(cs), pr.name), fmt.Sprintf("%s returned %s: the request %s led to %d handler calls %v", pr.name, e.name, p, len(cs), cs), map[string]any{"handler": pr.name, "returned_error": fmt.Sprintf("%T %v", e.err, e.err)})
+				}
+			}
 			u.Eval(fmt.Sprintf("bwd/%s/%s", pr.name, e.name))
 			u.Count("error_values_checked", 1)
 			w := map[string]any{"handler": pr.name, "returned_error": fmt.Sprintf("%T %v", e.err, e.err), "request": p.String()}
